@@ -420,6 +420,79 @@ theorem diag_block (w : Vec ℝ 3) (θ s c : ℝ) (hθ : θ ≠ 0)
       = (poly2 (SO3.hat w) ((c - 1) / sqNorm w) (-((s - θ) / (sqNorm w * θ)))) i j := by
   entry9
 
+set_option maxHeartbeats 4000000 in
+/-- the upper-right block: summed series vs the closed form of `calculate_q(−v, −w)` -/
+theorem lr_block (v w : Vec ℝ 3) (θ s c : ℝ) (hθ : θ ≠ 0) (hn : sqNorm w ≠ 0) :
+    ∀ i j : Fin 3,
+      ((θ - s) / (sqNorm w * θ) * (T2 v w) i j + (1 / 2 * ((1 - c) / sqNorm w)
+            - 3 / 2 * ((θ - s) / (sqNorm w * θ))) * ((-1 / sqNorm w) * (Um v w) i j))
+        + (-((c - 1 + sqNorm w / 2) / (sqNorm w * sqNorm w)
+              * (madd (mmul (SO3.hat w) (T2 v w)) (mmul (SO3.hat v) (W2 w))) i j)
+            - (1 / 2 * ((θ - s) / (sqNorm w * θ)) - 2 * ((c - 1 + sqNorm w / 2) / (sqNorm w * sqNorm w)))
+              * ((-1 / sqNorm w)
+                * (madd (mmul (SO3.hat w) (Um v w)) (mmul (SO3.hat v) (mzero 3 3))) i j))
+        + ((mzero 3 3 : Mat ℝ 3 3) i j + -(1 / 2) * (SO3.hat v) i j)
+      = (((1 / 2) * (SO3.hat (vneg v)) i j
+          + (s - θ) / (sqNorm w * θ)
+            * ((-((mmul (SO3.hat (vneg w)) (SO3.hat (vneg v))) i j)
+                - (mmul (SO3.hat (vneg v)) (SO3.hat (vneg w))) i j)
+              + dot (vneg v) (vneg w) * (SO3.hat (vneg w)) i j))
+          + (c - 1 + sqNorm w / 2) / (sqNorm w * sqNorm w)
+            * (((mmul (SO3.hat (vneg w)) (mmul (SO3.hat (vneg w)) (SO3.hat (vneg v)))) i j
+                + (mmul (mmul (SO3.hat (vneg v)) (SO3.hat (vneg w))) (SO3.hat (vneg w))) i j)
+              + dot (vneg v) (vneg w)
+                * (3 * (SO3.hat (vneg w)) i j - (mmul (SO3.hat (vneg w)) (SO3.hat (vneg w))) i j)))
+        + (((s - θ + sqNorm w * θ / 6) / (sqNorm w * sqNorm w * θ) * 3) * dot (vneg v) (vneg w))
+            * (mmul (SO3.hat (vneg w)) (SO3.hat (vneg w))) i j := by
+  entry9
+
+/-- SE3, closed branch: `dr_exp a [j,r] = Σ_k (−1)^k/(k+1)! · (ad(a)^k)[j,r]` -/
+theorem se3_drExp_hasSum (a : Vec ℝ 6) (h : Scalar.eps2 < sqNorm (SE3.tw a)) (j r : Fin 6) :
+    HasSum (termD (toM (SE3.ad a)) j r) ((SE3.dr_exp a) j r) := by
+  have hs := ad_hasSum a h j r
+  obtain ⟨hθ, hsq⟩ := sqrt_facts h
+  have hn0 : sqNorm (SE3.tw a) ≠ 0 := (lt_trans eps2_pos h).ne'
+  have hneg : Scalar.eps2 < sqNorm (vneg (SE3.tw a)) := by rw [sqNorm3_neg]; exact h
+  have hA3 : mmul (SE3.ad a) (mmul (SE3.ad a) (SE3.ad a))
+      = SE3.blk22 (mmul (SO3.hat (SE3.tw a)) (W2 (SE3.tw a)))
+          (madd (mmul (SO3.hat (SE3.tw a)) (T2 (SE3.tv a) (SE3.tw a)))
+            (mmul (SO3.hat (SE3.tv a)) (W2 (SE3.tw a)))) (mzero 3 3)
+          (mmul (SO3.hat (SE3.tw a)) (W2 (SE3.tw a))) := by
+    rw [ad_sq, ad_blocks, C04SE3.blk22_mul]
+  have hAZ : mmul (SE3.ad a)
+        (SE3.blk22 (mzero 3 3) (Um (SE3.tv a) (SE3.tw a)) (mzero 3 3) (mzero 3 3))
+      = SE3.blk22 (mmul (SO3.hat (SE3.tw a)) (mzero 3 3))
+          (madd (mmul (SO3.hat (SE3.tw a)) (Um (SE3.tv a) (SE3.tw a)))
+            (mmul (SO3.hat (SE3.tv a)) (mzero 3 3))) (mzero 3 3)
+          (mmul (SO3.hat (SE3.tw a)) (mzero 3 3)) := by
+    rw [ad_blocks, C04SE3.blk22_mul]
+  simp only [cβ, cβ1, cγ, cγ1] at hs
+  rw [hA3, hAZ, ad_sq, ident6] at hs
+  rw [C04SE3.se3_dr_exp_blocks]
+  convert hs using 1
+  clear hs
+  rw [ad_blocks]
+  revert j r
+  apply idx6
+  · intro x; apply idx6
+    · intro y
+      simp only [blk_ll]
+      rw [diag_block (SE3.tw a) _ _ _ hθ hn0, dr_exp_closed _ h]
+      rfl
+    · intro y
+      simp only [blk_lr]
+      rw [lr_block (SE3.tv a) (SE3.tw a) _ _ _ hθ hn0]
+      simp only [SE3.calculate_q, memoM_eq, Mat.of_get, sqNorm3_neg, sin_3_closed h, cos_4_closed h,
+        sin_5_closed h, Nat.cast_ofNat, Nat.cast_one]
+  · intro x; apply idx6
+    · intro y
+      simp only [blk_rl]
+      simp [mzero]
+    · intro y
+      simp only [blk_rr]
+      rw [diag_block (SE3.tw a) _ _ _ hθ hn0, dr_exp_closed _ h]
+      rfl
+
 end value
 
 end C04SeriesSE3
